@@ -217,15 +217,43 @@ CHECKS["C09"] = dict(level="model_checking", design="5 C09",
          "are validated as traces (re-evaluated residual of every reported pair < absTOL). Stopping short of full load and initialInc > 1 "
          "are the named deviations KF_C09_StopsShortOfFullLoad / KF_C09_InitialIncAboveOne (known findings).")
 
+_SHELL_NOTE = ("PARTIAL claim. Trusted: TLC/SANY, BigInt/Rat definitions. The trigonometric kernels (.pyx, not rebuildable here) are "
+               "opaque: no absolute kernel value is decided. Decided: the composition the Python layer performs (which kernel with "
+               "which argument list - the plan is printed by TLC and executed literally by the harness -, symmetrisation, partition, "
+               "sums) and the relations the property states between observable matrices / vectors, each judged by TLC on exactly "
+               "recorded doubles with a tolerance stated in bits of the law's own term scale; the algebra behind the finite-difference "
+               "laws is model-checked on exact integer polynomial maps. Findings in the kernels are listed as known findings.")
+CHECKS["C16"] = dict(level="other", design="6 (C16) and 10.7", note=_SHELL_NOTE,
+    technique="TLA+ module ShellLaws: (A) model-checked algebra on an exact toy von-Karman shell that uses the package's own composition "
+              "(SymUp, k0 + k0edges, partition operators of ShellPartition); (B) state machine of the ConeCyl matrix life cycle whose "
+              "invariants are the relational laws; LinearPlan printed by TLC, executed on the real ConeCyl and on the kernels directly, "
+              "every study judged by TLC trace validation (Trace_ShellLaws)",
+    text="Observation-level relational laws + model-checked algebra (not an exact-value decision). Decided for every registered classical "
+         "and first-order-shear model, boundary-condition variant, cylinders and cones, random laminates / restraints / load triples: k0, kG0 "
+         "and the Fc/P/T split symmetric; k0uu / k0uk are the partition of k0; k0 = Sym(kernel + k0edges) and kG0 = Sym(kernel) with the "
+         "planned argument lists (F rule incl. fsdt shear scaling, F_reuse, orthotropic zero list, Fc = Nxxtop 2 pi r2 cos(alpha)); probe "
+         "positivity (necessary condition only); dedicated cylinder kernels = cone kernels at zero angle; iso_ short-cuts = general model "
+         "with the isotropic laminate; kG0 additive and homogeneous in (Fc, P, T); combined-load split adds up; elastic edge restraints enter "
+         "affinely; same definition => bitwise same answer after pre-queries / single-aspect changes; inputs not modified. NOT decided: that "
+         "k0 is the Hessian of the strain energy of the package's own strain field; positive semi-definiteness beyond the probes; any "
+         "absolute kernel value.")
+CHECKS["C17"] = dict(level="other", design="6 (C17) and 10.7", note=_SHELL_NOTE,
+    technique="TLA+ module ShellLaws: TLC proves on integer polynomial maps of degree <= 4 that the 4-point central formula "
+              "R4(f,c,d) = (8(f(c+d)-f(c-d)) - (f(c+2d)-f(c-2d)))/12 equals J(c) d exactly for ANY step (and is not exact for degree 5), that "
+              "the Jacobian is symmetric iff the map is a gradient, closed-path work of cubic gradients is zero; the internal force of a "
+              "von-Karman shell is a cubic polynomial map of the amplitudes whatever the (fixed, linear) integration rule is, so the "
+              "Jacobian clause becomes an exact relation between five recorded vectors; NLPlan printed by TLC, executed on the real ConeCyl, "
+              "judged by TLC trace validation",
+    text="Observation-level relational laws + model-checked algebra. Decided on the free amplitudes for every non-linear-capable model, "
+         "cylinders and cones, prescribed sets {2}, {1,2}, {0,1,2}, load levels 1, 0.5, 0.75, both integration rules, 1..8 threads, with and "
+         "without imperfection coefficients: tangent symmetric; tangent = Jacobian of calc_fint (R4 with steps the size of the state, "
+         "38 bits asked, 49-52 kept on the clean clpt models); fint is a gradient; f(0) = 0; linear limit = k0uu c; kTuu / kTuk = partition "
+         "of kL + kG; kL, kG, fint = composition of the planned kernel calls; return_u deletion; thread counts agree within 2^-44. NOT "
+         "decided: absolute kernel integrals; adequacy of the integration grid.")
+
 NOT_YET = {}
 
-NA = {
-    "C16": "complete-shell kernels use trigonometric series integrated over 79 meridian sections with -ffast-math: "
-           "entries are not rational, no exact TLA+ quantity and no discrete structure; a TLA+ text could only restate "
-           "a numerical flag computed elsewhere (DESIGN.md section 6)",
-    "C17": "same as C16 plus trapezoid/Simpson quadrature of trigonometric integrands: Jacobian consistency of the shell "
-           "tangent is a numerical-analysis statement outside what TLC can evaluate (DESIGN.md section 6)",
-}
+NA = {}
 
 
 def main():
